@@ -557,7 +557,7 @@ def dt_line(step):
     return "dt.from " + " ".join(parts)
 
 
-def observe(tp, torch, live, exp, items, where, problems):
+def observe(tp, torch, live, exp, items, where, problems, grad=False):
     """ALL read accessors of a live object against the state it must be in (`exp`, tracked with plain
     torch by the harness): a stale cache behind any accessor shows up here"""
     Points = tp.spaces.Points
@@ -570,6 +570,10 @@ def observe(tp, torch, live, exp, items, where, problems):
         return
     if not tensor_eq(torch, live.as_tensor, exp):
         bad(f"as_tensor is {live.as_tensor.tolist()}, the table must hold {exp.tolist()}")
+    if live.as_tensor.dtype != exp.dtype:
+        bad(f"as_tensor has element type {live.as_tensor.dtype}, the table has {exp.dtype}")
+    if bool(live.requires_grad) != grad or bool(live.as_tensor.requires_grad) != grad:
+        bad(f"requires_grad is {live.requires_grad}, it was set to {grad}")
     if int(len(live)) != _prod(bshape) or list(live.shape) != bshape or live.dim != exp.shape[-1]:
         bad(f"len/shape/dim = {int(len(live))}/{list(live.shape)}/{live.dim}, expected {_prod(bshape)}/{bshape}/{exp.shape[-1]}")
     if bool(live.isempty) != (_prod(bshape) == 0 and exp.shape[-1] == 0):
@@ -584,7 +588,13 @@ def observe(tp, torch, live, exp, items, where, problems):
         want = exp[..., cols] if cols else exp[..., :0]
         if n in c and not tensor_eq(torch, c[n], want):
             bad(f"coordinates[{n!r}] = {c[n].tolist()} but the columns of {n} hold {want.tolist()}")
+        if n in c and (c[n].dtype != exp.dtype or bool(c[n].requires_grad) != grad):
+            bad(f"coordinates[{n!r}] has element type {c[n].dtype} / requires_grad {c[n].requires_grad}, "
+                f"the table has {exp.dtype} / {grad}")
         got = live[..., n]
+        if got.as_tensor.dtype != exp.dtype or bool(got.requires_grad) != grad:
+            bad(f"points[..., {n!r}] has element type {got.as_tensor.dtype} / requires_grad {got.requires_grad}, "
+                f"the table has {exp.dtype} / {grad}")
         if list(got.space.items()) != [(n, len(cols))] or not tensor_eq(torch, got.as_tensor, want):
             bad(f"points[..., {n!r}] = {got.as_tensor.tolist()} but the columns of {n} hold {want.tolist()}")
     if items:
@@ -599,6 +609,10 @@ def observe(tp, torch, live, exp, items, where, problems):
         bad("p == (a fresh Points with the same space and cells) is False")
     if exp.numel() and (live == Points(exp + 1, mk_space(tp, items))):
         bad("p == (Points with different cells) is True")
+    if not grad:
+        want_repr = "{}:\n{}".format("Points", {n: (exp[..., ref_cols([tuple(x) for x in items], [n])]) for n, _ in items})
+        if repr(live) != want_repr:
+            bad(f"repr shows {repr(live)!r}, the table is {want_repr!r}")
     rows = [r.as_tensor for r in live] if len(bshape) == 1 and bshape[0] <= 4 else None
     if rows is not None and (len(rows) != bshape[0] or any(not tensor_eq(torch, r, exp[i:i + 1]) for i, r in enumerate(rows))):
         bad("iteration does not yield the rows")
@@ -611,12 +625,36 @@ def exec_live(tp, torch, np, step):
     items = step["p"]["space"]
     live = mk_points(tp, torch, step["p"])
     exp = torch.tensor(step["p"]["vals"], dtype=torch.float64).reshape(step["p"]["shape"])
+    exp = exp.to(torch_dtype(torch, step["p"].get("dtype", "f64")))
+    grad = False
     with g:
-        observe(tp, torch, live, exp, items, "before the first operation", problems)
+        observe(tp, torch, live, exp, items, "before the first operation", problems, grad)
     for k, sub in enumerate(step["script"]):
         cur = dict(space=items, shape=list(exp.shape), vals=[float(v) for v in exp.reshape(-1).tolist()])
-        where = f"after step {k + 1} ({sub['op']} {describe_index(sub['ix']) if 'ix' in sub else ''})"
-        if sub["op"] == "set":
+        where = f"after step {k + 1} ({sub['op']} {describe_index(sub['ix']) if 'ix' in sub else sub.get('dtype', sub.get('value', ''))})"
+        if sub["op"] in ("to", "grad", "track"):
+            try:
+                if sub["op"] == "to":
+                    back = live.to(torch_dtype(torch, sub["dtype"]))
+                    exp = exp.to(torch_dtype(torch, sub["dtype"]))
+                    if back is not live:
+                        problems.append(f"{where}: Points.to does not return the object itself")
+                elif sub["op"] == "grad":
+                    live.requires_grad = bool(sub["value"])
+                    grad = bool(sub["value"])
+                else:
+                    cs, pts = live.track_coord_gradients()
+                    with g:
+                        for n, _ in items:
+                            cols = ref_cols([tuple(x) for x in items], [n])
+                            if not tensor_eq(torch, cs[n].detach(), exp[..., cols] if cols else exp[..., :0]) or not cs[n].requires_grad:
+                                problems.append(f"{where}: track_coord_gradients()[0][{n!r}] is not the column block of {n} with requires_grad")
+                        if not tensor_eq(torch, pts.as_tensor.detach(), exp) or list(pts.space.items()) != [tuple(x) for x in items]:
+                            problems.append(f"{where}: the Points returned by track_coord_gradients do not hold the table")
+            except Exception as e:
+                return dict(text="err", problems=problems, result=None, crashes=g.crashes,
+                            exc=f"step {k + 1}: {type(e).__name__}: {str(e)[:100]}")
+        elif sub["op"] == "set":
             rhs = mk_points(tp, torch, sub["q"])
             try:
                 live[index_py(torch, np, sub["ix"])] = rhs
@@ -628,7 +666,7 @@ def exec_live(tp, torch, np, step):
                 raise common.HarnessTrouble("live script with an index outside the reference fragment")
             _, _, bidx, cols = ref
             sel = exp[..., cols].clone() if cols else exp[..., :0].clone()
-            sel[bidx] = rhs.as_tensor
+            sel[bidx] = rhs.as_tensor.to(exp.dtype)
             if cols:
                 exp = exp.clone()
                 exp[..., cols] = sel
@@ -660,8 +698,9 @@ def exec_live(tp, torch, np, step):
                     oracles(tp, torch, np, sstep, o, sub_problems)
                     problems += [f"{where}: {m}" for m in sub_problems]
         with g:
-            observe(tp, torch, live, exp, items, where, problems)
-    return dict(text=canon_pts(live), problems=problems, result=None, crashes=g.crashes)
+            observe(tp, torch, live, exp, items, where, problems, grad)
+    return dict(text=f"{canon_tpts(torch, live)} grad={'true' if live.requires_grad else 'false'}", problems=problems,
+                result=None, crashes=g.crashes)
 
 
 def gen_live(rng, n):
@@ -671,10 +710,37 @@ def gen_live(rng, n):
         names = [nm for nm, _ in items]
         bshape = [rng.randint(1, 3) for _ in range(rng.choice([1, 1, 1, 2]))]
         p = gen_points_json(rng, items, bshape)
+        tag = rng.choice(["f64", "f64", "f32"])
+        p["dtype"] = tag
+        if rng.random() < 0.3:
+            p["vals"] = [rng.choice([0.5, -2.25, 0.1 if tag == "f64" else 0.25, 3.0]) for _ in p["vals"]]
         script = []
-        for _ in range(rng.randint(2, 6)):
+        grad = False
+        for _ in range(rng.randint(2, 7)):
             c = rng.random()
-            if c < 0.55:
+            if grad:
+                # an object whose tensor requires grad: only reads, then the flag is cleared again
+                # (track_coord_gradients refuses such an object: its views are not leaves)
+                script.append(rng.choice([dict(op="coords"), dict(op="get", ix=gen_index(rng, p)),
+                                          dict(op="grad", value=False)]))
+                if script[-1]["op"] == "grad":
+                    grad = False
+                continue
+            if c < 0.16:
+                new = rng.choice([t for t in ["f32", "f64", "i64"] if t != tag] if rng.random() < 0.85 else [tag])
+                if new == "i64" and rng.random() < 0.7:
+                    new = "f32" if tag == "f64" else "f64"
+                script.append(dict(op="to", dtype=new))
+                tag = new
+                continue
+            if c < 0.24 and tag != "i64":
+                script.append(dict(op="grad", value=True))
+                grad = True
+                continue
+            if c < 0.28:
+                script.append(dict(op="track") if tag != "i64" else dict(op="coords"))
+                continue
+            if c < 0.62:
                 kc = rng.random()
                 if kc < 0.55:
                     key = ["W", rng.sample(names, rng.randint(1, len(names))), rng.choice(["tuple", "list"])]
@@ -697,7 +763,7 @@ def gen_live(rng, n):
                 sh, sp = rs
                 if not sh or rng.random() < 0.15:
                     sh = [1]
-                script.append(dict(op="set", ix=ix, q=gen_points_json(rng, sp, sh)))
+                script.append(dict(op="set", ix=ix, q=dict(gen_points_json(rng, sp, sh), dtype=tag)))
             elif c < 0.7:
                 script.append(dict(op="coords"))
             elif c < 0.82:
@@ -710,6 +776,8 @@ def gen_live(rng, n):
                 script.append(dict(op="arith", q=gen_points_json(rng, items, bshape)))
             else:
                 script.append(dict(op="cat", q=gen_points_json(rng, items, [rng.randint(1, 2)] + bshape[1:])))
+        if grad:
+            script.append(dict(op="grad", value=False))
         steps.append(dict(op="live", p=p, script=script))
     return steps
 
@@ -1054,10 +1122,16 @@ def model_line(step):
     if op == "dt":
         return dt_line(step)
     if op == "live":
-        sets = [m for m in step["script"] if m["op"] == "set"]
         nd = len(step["p"]["shape"])
-        return f"pts.live {pts_tok(step['p'])} {len(sets)} " + " ".join(
-            f"{index_tok(normalise_index(m['ix'], nd))} {pts_tok(m['q'])}" for m in sets)
+        muts = []
+        for m in step["script"]:
+            if m["op"] == "set":
+                muts.append(f"S {index_tok(normalise_index(m['ix'], nd))} {tpts_tok(m['q'])}")
+            elif m["op"] == "to":
+                muts.append(f"T {m['dtype']}")
+            elif m["op"] == "grad":
+                muts.append(f"G {1 if m['value'] else 0}")
+        return f"obj.run {tpts_tok(step['p'])} {len(muts)} " + " ".join(muts)
     if op == "pts.arith":
         return f"{op} {step['f']} {pts_tok(step['p'])} {pts_tok(step['q'])}"
     if op in ("pts.cat", "pts.join", "pts.eq"):
@@ -1565,9 +1639,9 @@ def all_steps(ctx):
     out = []
     for st in gen_targeted(rng, ctx.scale(150, 1500)):
         out.append((st, exec_step(st)))
-    for st in gen_dtype(rng, ctx.scale(600, 6000)):
+    for st in gen_dtype(rng, ctx.scale(500, 6000)):
         out.append((st, exec_step(st)))
-    for st in gen_live(rng, ctx.scale(400, 4000)):
+    for st in gen_live(rng, ctx.scale(300, 4000)):
         out.append((st, exec_step(st)))
     for st in gen_multiname(rng, ctx.scale(600, 6000)):
         res = exec_step(st)
